@@ -653,7 +653,15 @@ Definition declare (d : fdecl) : decl (text -> hres) :=
               | DeclOk c => DeclOk (constant_hook c)
               | DeclInterface => DeclInterface | DeclLeak => DeclLeak | DeclOut => DeclOut
               end
-          | TDateTime => DeclOk (datetime_hook (fd_kind d) (fd_rule d))
+          | TDateTime =>
+              (* time.strptime("", format) at declaration: a repeated item makes re raise an error -> InterfaceError *)
+              if has_non_ascii_t (fd_rule d) then DeclOut
+              else
+                let fmt_text := strptime_format (fd_rule d) in
+                match parse_format (S (length fmt_text)) fmt_text with
+                | Some fmt => if has_dup (dirs_of fmt) then DeclInterface else DeclOk (datetime_hook (fd_kind d) (fd_rule d))
+                | None => DeclOk (datetime_hook (fd_kind d) (fd_rule d))
+                end
           | TPattern g =>
               if forallb gitem_ok g && text_eqb (print_glob g) (fd_rule d) then DeclOk (pattern_hook g) else DeclOut
           | TRegEx r =>
